@@ -113,7 +113,7 @@ pub struct Gen<'a> {
 }
 
 const KEYS: [&str; 8] = ["a", "b", "k", "n", "tag", "x", "y", "zz"];
-const WORDS: [&str; 10] = ["", "a", "b", "ab", "hello", "x y", "é", "日本", "🙂!", "line\nbreak"];
+const WORDS: [&str; 13] = ["", "a", "b", "ab", "hello", "x y", "é", "日本", "🙂!", "line\nbreak", "q\"uote", "back\\slash", "$5 ${k}"];
 
 pub fn gen_prog(t: &mut Tape, cfg: &GenCfg) -> Prog {
     let mut g = Gen{
